@@ -211,7 +211,10 @@ impl<T: AbstractDomain + SizedDomain + HasTop + std::fmt::Debug> MemRegion<T> {
     /// Emulate a write operation of a value to an unknown offset in the range between `start` and `end`
     /// by merging all values in the range with `Top` (as we don't exactly know which values are overwritten).
     pub fn mark_interval_values_as_top(&mut self, start: i64, end: i64, elem_size: ByteSize) {
-        self.merge_values_intersecting_range_with_top(start, end + u64::from(elem_size) as i64)
+        self.merge_values_intersecting_range_with_top(
+            start,
+            end.saturating_add(u64::from(elem_size) as i64),
+        )
     }
 
     /// Merge all values intersecting the given range with `Top`.
